@@ -271,6 +271,20 @@ func execReg(in regInput, scratch string) (Case, error) {
 	case <-time.After(20 * time.Second):
 		fatal = "blocked for 20s"
 	}
+	if fatal == "" && id%3 == 0 {
+		// outside the model's universe (its directories either hold a bucket or do not exist): a directory that is
+		// there but holds no bucket - a fresh temporary directory, say.  ReOpenExisting fails iff the bucket does
+		// not exist: it must fail here, and leave the directory as it was.
+		bare := filepath.Join(dir, "bare")
+		if err := os.Mkdir(bare, 0700); err == nil {
+			if hb, e := rosmar.OpenBucket("rosmar://"+bare, realName(0)+"_bare", rosmar.ReOpenExisting); e == nil {
+				fatal = "ReOpenExisting succeeded on a directory that holds no bucket"
+				_ = hb.CloseAndDelete(ctxBg)
+			} else if ents, _ := os.ReadDir(bare); len(ents) != 0 {
+				fatal = fmt.Sprintf("a refused ReOpenExisting left %d file(s) in a directory that held none", len(ents))
+			}
+		}
+	}
 	c.Fatal = fatal
 	if discard != "" {
 		c.Notes = append(c.Notes, "truncated: "+discard)
